@@ -9,6 +9,12 @@ import (
 )
 
 func schemaComments(schema *openapi3.Schema) []string {
+	// references that could not be resolved have no value (only possible when
+	// the validation of the document is disabled)
+	if schema == nil {
+		return nil
+	}
+
 	lines := strings.Split(schema.Description, "\n")
 	filtered := make([]string, 0, len(lines))
 
